@@ -103,7 +103,7 @@ def make_case(rng):
 
 def describe(case):
     return {k: ([{kk: vv for kk, vv in f.items() if kk != 'tp'} for f in v] if k == 'fields' else v) for k, v in case.items()
-            if k not in ('captured', 'cls', 'run_errors', 'vin')}
+            if k not in ('captured', 'cls', 'run_errors', 'vin')}      # (a nested-class case carries its root's description)
 
 
 def build_class(case, idx, seed):
@@ -125,8 +125,10 @@ def build_class(case, idx, seed):
         ns['PRE'] = staticmethod(lambda o: o)
         lines.append('    _pre_from_dict = PRE')
     decls = []
+    # a nested class of its own per case: the loader of a shared one would be configured by whichever root reached it first
+    inner = dataclasses.make_dataclass('_Inner', [('m', int), ('n', str, dataclasses.field(default='z'))])
     for i, f in enumerate(case['fields']):
-        ns[f'T{i}'] = f['tp']
+        ns[f'T{i}'] = {'Inner': inner, 'list[Inner]': list[inner]}.get(f['tname'], f['tp'])
         kw = {}
         base = {'int': 3, 'str': 'd', 'float': 1.5, 'bool': True}.get(f['tname'])
         if f['dflt'] == 'value':
@@ -462,13 +464,34 @@ def run_genloadv1(ctx: C.Ctx):
             texts = [case.get('tag_key') or ''] + [x for fl in case['fields'] for x in ([fl['name']] + (fl['decl'][1] if len(fl['decl']) > 1 else []))]
             nonp = sorted({ord(ch) for tx in texts for ch in tx if ord(ch) >= 127 and not ch.isprintable()})
             reqs.append({'op': 'genloadv1', 'nonprintable': nonp, 'vin': vin, 'outer': outer})
+            # the loader of the nested class `_Inner`, generated into the same batch under the root's Meta: the same skeleton
+            inner_fn = '__dataclass_wizard_from_dict__Inner__'
+            if case['captured'] is not None and inner_fn in case['captured']['functions']:
+                sub = {'fields': [{'name': 'm', 'tname': 'int', 'tp': int, 'dflt': 'none', 'decl': ('plain',)},
+                                  {'name': 'n', 'tname': 'str', 'tp': str, 'dflt': 'value', 'decl': ('plain',)}],
+                       'key_case': case['key_case'], 'unknown': case['unknown'], 'catch': None, 'tag': False, 'tag_key': None,
+                       'pre': False, 'noninit': False, 'catch_name': 'rest', 'catch_pos': 0, 'index': idx, 'nested_of': describe(case),
+                       'captured': case['captured'], 'fn_name': inner_fn, 'run_errors': []}
+                vin2 = vin_of(sub)
+                f2 = case['captured']['functions'][inner_fn]
+                exprs2 = cut_exprs(f2['code'], vin2) or ['v1'] * 2
+                for fld, e in zip(vin2['fields'], exprs2):
+                    try:
+                        r, w, b = expr_names(e)
+                    except SyntaxError:
+                        r, w, b = ['v1'], [], []
+                    fld.update(expr=e, exprReads=r, exprWrites=w, exprBinds=b)
+                outer2 = sorted(set(f2.get('locals_ordered') or []) | set(case['captured']['globals']) | set(case['captured']['functions']) | set(bi))
+                sub['vin'] = vin2
+                cases.append(sub)
+                reqs.append({'op': 'genloadv1', 'nonprintable': [], 'vin': vin2, 'outer': outer2})
     outs = ctx.driver.run(reqs) if ctx.model_available else [None] * len(reqs)
     for case, out in zip(cases, outs):
         ctx.current = case['index']
         d = describe(case)
         vin = case['vin']
         kinds = sorted({f['lookup']['kind'] for f in vin['fields']})
-        feats = '+'.join([k for k, on in (('pre', vin['preFromDict']), ('catch', bool(vin['catchAll'])), ('unknown', bool(vin['unknown'])),
+        feats = ('nested+' if case.get('nested_of') else '') + '+'.join([k for k, on in (('pre', vin['preFromDict']), ('catch', bool(vin['catchAll'])), ('unknown', bool(vin['unknown'])),
                                           ('tag', bool(vin['tagKey'])), ('nofields', not vin['fields'])) if on] + kinds) or 'plain'
         ctx.seen('genloadv1:' + feats, d)
         bad = case['run_errors']
